@@ -408,3 +408,25 @@ def shared_writer(ctx: Ctx) -> None:
     from . import C04 as _c04
     from .common import support
     support(ctx, [_c04.r2, _c04.r3, _c04.r6], {"dump_yaml_module", "dump_yaml_modules", "dump_yaml_rectangles", "dump_yaml_edges", "Netlist.write_yaml"})
+
+
+@rule("C14", "R6.objects-not-shared", "SHARED(C20)",
+      "the rectangles that are translated in place with their module belong to that module alone: the code that builds "
+      "modules and rectangles from a description (frame/netlist, frame/geometry) keeps no process-wide cache or "
+      "memoising decorator through which two modules -- or two readings of one text -- would receive the same Rectangle "
+      "object (then one module's translation moves the other's pieces; seeded change C14-9) -- the C20 state inventory "
+      "restricted to those packages", floor=1)
+def shared_state(ctx: Ctx) -> None:
+    from . import C20 as _c20
+    rid = ctx.current.rid
+    n_f, n_s = len(ctx.findings), len(ctx.sites.get(rid, []))
+    _c20.r1(ctx)
+    pk = ("frame/netlist/", "frame/geometry/")
+    new_f = ctx.findings[n_f:]
+    del ctx.findings[n_f:]
+    ctx.findings.extend(f for f in new_f if f.where.startswith(pk))
+    sites = ctx.sites.get(rid, [])
+    new_s = sites[n_s:]
+    del sites[n_s:]
+    sites.extend(s for s in new_s if s.get("where", "").startswith(pk))
+    ctx.require(len(sites) - n_s >= 1, "no process-wide state of frame/netlist or frame/geometry inventoried (Rectangle's tolerance was expected)")
